@@ -282,6 +282,34 @@ def payload_forms(ctx):
         ok = any("is_file" in repr(gg) and pol and any(s == v for s in subterms(gg)) for gg, pol in g.items())
         R.check("C05-D1f payload classification", ok, "path <- the value names an existing file", mod=fi.module, node=fi.node, function=fq,
                 expected="pathlib.Path(v).is_file()", found=f"{list(g.items())}"[:200])
+    # which strings are taken as literal hex: decided by evaluating the alternatives' guards on sample values that are neither a
+    # description nor the name of an existing file - every string of hex digit pairs, the empty string (a zero-length payload, as
+    # parse prints it) included, and nothing else
+    from sa.teval import teval as _teval, Unknown as _Unknown, Raised as _Raised
+    if "hex" in found:
+        atoms = {s_ for g_, _t in alts for c_ in g_ for s_ in subterms(c_) if isinstance(s_, App) and (
+            "is_file" in s_.op or "exists" in s_.op or (s_.op == "isinstance" and s_.args[0] == v))}
+        verdicts, undecided = {}, None
+        for smp, is_hex in (("", True), ("00", True), ("ab", True), ("ABCDEF0123456789", True), ("0a1B", True), ("xyz", False), ("0g", False)):
+            env = {v: smp, **{a_: False for a_ in atoms}}
+            chosen = None
+            try:
+                for g_, t_ in alts:
+                    if all(bool(_teval(c_, env)) == bool(pol_) for c_, pol_ in g_.items()):
+                        chosen = t_
+                        break
+            except (_Unknown, _Raised) as e_:
+                undecided = f"{smp!r}: {e_}"
+                break
+            verdicts[smp] = (chosen == want["hex"], is_hex)
+        if undecided is None:
+            R.rule("C05-D1h literal hex recognised", 1, "a string of hex digit pairs - the empty string included - is taken as the payload's bytes; other strings are not")
+            wrong = {k_: got_ for k_, (got_, exp_) in verdicts.items() if got_ != exp_}
+            R.check("C05-D1h literal hex recognised", not wrong, "classification of sample strings", mod=fi.module, node=fi.node, function=fq,
+                    expected="'' / '00' / 'ab' / 'ABCDEF0123456789' / '0a1B' are literal hex, 'xyz' / '0g' are not",
+                    found=f"{ {k_: ('taken as hex' if g_ else 'not taken as hex') for k_, g_ in wrong.items()} }: parse prints an empty payload as '' - it must be accepted back")
+        else:
+            R.info(f"C05-D1h: classification of literal hex not evaluable ({undecided})")
     # D3: classification order — a path whose name consists of hex digits must still be read as a file
     R.rule("C05-D3 path before literal hex", 1, "the literal-hex test must not shadow the file test")
     if "hex" in found and "path" in found:
